@@ -283,7 +283,7 @@ def make_a64(rng, name, shape=None, force=None):
         f.emit(I("ldp_post", a, b, tot), "epilogue", a_ldp_post(a, b, tot))
     if not signing and rng.chance(1, 4):
         f.emit(I("b"), "epilogue", a_word(0x14000000 | rng.below(1 << 26)))           # tail call
-    elif signing and rng.chance(1, 2):
+    elif signing and ((force or {}).get("authtail") or rng.chance(1, 2)):
         # arm64e authenticated tail call: autibsp; eor x16, lr, lr, lsl #1; tbz x16, #62, +8; brk #0xc471; then
         # b target  |  mov x16, #imm; braa xN, x16     (all of it belongs to the epilogue: everything is restored)
         f.emit(I("autibsp"), "epilogue", a_word(0xD50323FF))
@@ -386,6 +386,8 @@ def make_program(rng, arch, nfuncs=8):
         # the longest prologue of the grammar: pacibsp, all five callee-saved pairs, the frame record (then add x29, sub sp)
         funcs.append(make_a64(rng, "f%d" % len(funcs), "frame-pairs", force=dict(signing=True, npairs=5, subfirst=False)))
         funcs.append(make_a64(rng, "f%d" % len(funcs), "frame-pairs", force=dict(signing=rng.chance(1, 2), npairs=5, subfirst=True)))
+        # every program has one function that ends in an authenticated tail call (arm64e)
+        funcs.append(make_a64(rng, "f%d" % len(funcs), "frame-pairs", force=dict(signing=True, npairs=rng.range(1, 2), authtail=True)))
     if arch == "x86":
         # six saved registers with rbp pushed last / first (every slot of the permutation in use)
         funcs.append(make_x86(rng, "f%d" % len(funcs), "frameless", force_saved=[15, 14, 13, 12, RBX, RBP]))
